@@ -49,6 +49,47 @@ impl Default for Encoding {
     }
 }
 
+/// Optional descriptive metadata for `build_meta` (C17 / C18). `Meta::default()` adds nothing,
+/// which is what `build` / `build_with` use.
+#[derive(Clone, Debug, Default)]
+pub struct Meta {
+    /// transfer descriptions and deprecations (types, fields, arguments, enum values, input
+    /// fields) from the IR
+    pub describe: bool,
+    /// scalar name → `specifiedBy` URL
+    pub specified_by: std::collections::BTreeMap<String, String>,
+    /// element path (`T`, `T.f`, `T.f.a`, `E.V`, `In.f`) → applied directives (name, arguments)
+    pub applied: std::collections::BTreeMap<String, Vec<(String, Vec<(String, Value)>)>>,
+}
+
+impl Meta {
+    fn directives(&self, path: &str) -> Vec<Directive> {
+        self.applied
+            .get(path)
+            .map(|ds| ds.iter().map(|(n, args)| args.iter().fold(Directive::new(n.clone()), |d, (k, v)| d.argument(k.clone(), v.clone()))).collect())
+            .unwrap_or_default()
+    }
+}
+
+fn make_input_value(a: &agv_refgql::schema::Arg, path: &str, meta: &Meta) -> InputValue {
+    let mut iv = InputValue::new(a.name.clone(), type_ref(&a.ty));
+    if let Some(d) = &a.default {
+        iv = iv.default_value(const_value(d));
+    }
+    if meta.describe {
+        if let Some(d) = &a.desc {
+            iv = iv.description(d.clone());
+        }
+        if let Some(r) = &a.deprecated {
+            iv = iv.deprecation(r.as_deref());
+        }
+    }
+    for d in meta.directives(path) {
+        iv = iv.directive(d);
+    }
+    iv
+}
+
 fn leaf_value(ir: &Ir, ty: &Type, a: &Ans, enc: Encoding) -> Value {
     match a {
         Ans::Int(i) => Value::from(*i),
@@ -123,7 +164,8 @@ fn build_value<'a>(ir: &Ir, wd: &Wd, path: &str, ty: &Type, top: bool, enc: Enco
     }
 }
 
-fn make_field(ir: Arc<Ir>, name: &str, ty: &Type, args: &[agv_refgql::schema::Arg], enc: Encoding) -> Field {
+fn make_field(ir: Arc<Ir>, owner: &str, fd: &agv_refgql::schema::FieldT, enc: Encoding, meta: &Meta) -> Field {
+    let (name, ty, args) = (fd.name.as_str(), &fd.ty, fd.args.as_slice());
     let ty2 = ty.clone();
     let mut f = Field::new(name.to_string(), type_ref(ty), move |ctx| {
         let ir = ir.clone();
@@ -143,12 +185,20 @@ fn make_field(ir: Arc<Ir>, name: &str, ty: &Type, args: &[agv_refgql::schema::Ar
             }
         })
     });
+    let path = format!("{owner}.{name}");
     for a in args {
-        let mut iv = InputValue::new(a.name.clone(), type_ref(&a.ty));
-        if let Some(d) = &a.default {
-            iv = iv.default_value(const_value(d));
+        f = f.argument(make_input_value(a, &format!("{path}.{}", a.name), meta));
+    }
+    if meta.describe {
+        if let Some(d) = &fd.desc {
+            f = f.description(d.clone());
         }
-        f = f.argument(iv);
+        if let Some(r) = &fd.deprecated {
+            f = f.deprecation(r.as_deref());
+        }
+    }
+    for d in meta.directives(&path) {
+        f = f.directive(d);
     }
     f
 }
@@ -160,6 +210,11 @@ pub fn build(ir: &Ir, enc: Encoding) -> Result<Schema, String> {
 }
 
 pub fn build_with(ir: &Ir, enc: Encoding, cfg: impl FnOnce(SchemaBuilder) -> SchemaBuilder) -> Result<Schema, String> {
+    build_meta(ir, enc, &Meta::default(), cfg)
+}
+
+/// `build_with` plus descriptive metadata (descriptions, deprecations, `specifiedBy`, applied directives).
+pub fn build_meta(ir: &Ir, enc: Encoding, meta: &Meta, cfg: impl FnOnce(SchemaBuilder) -> SchemaBuilder) -> Result<Schema, String> {
     let irc = Arc::new(ir.clone());
     let mut b = Schema::build(&ir.query, ir.mutation.as_deref(), ir.subscription.as_deref());
     for (name, t) in &ir.types {
@@ -170,7 +225,16 @@ pub fn build_with(ir: &Ir, enc: Encoding, cfg: impl FnOnce(SchemaBuilder) -> Sch
             Kind::Scalar => {
                 let mut s = Scalar::new(name.clone());
                 if name == "Even" {
-                    s = s.validator(|v| matches!(v, Value::Number(n) if n.as_i64().map(|i| i % 2 == 0).unwrap_or(false)));
+                    s = s.validator(|v| *v == Value::Null || matches!(v, Value::Number(n) if n.as_i64().map(|i| i % 2 == 0).unwrap_or(false)));
+                }
+                if let Some(u) = meta.specified_by.get(name) {
+                    s = s.specified_by_url(u.clone());
+                }
+                if let (true, Some(d)) = (meta.describe, &t.desc) {
+                    s = s.description(d.clone());
+                }
+                for d in meta.directives(name) {
+                    s = s.directive(d);
                 }
                 b = b.register(s);
             }
@@ -200,13 +264,20 @@ pub fn build_with(ir: &Ir, enc: Encoding, cfg: impl FnOnce(SchemaBuilder) -> Sch
                             })
                         });
                         for a in &f.args {
-                            let mut iv = InputValue::new(a.name.clone(), type_ref(&a.ty));
-                            if let Some(d) = &a.default {
-                                iv = iv.default_value(const_value(d));
+                            sf = sf.argument(make_input_value(a, &format!("{name}.{}.{}", f.name, a.name), meta));
+                        }
+                        if meta.describe {
+                            if let Some(d) = &f.desc {
+                                sf = sf.description(d.clone());
                             }
-                            sf = sf.argument(iv);
+                            if let Some(r) = &f.deprecated {
+                                sf = sf.deprecation(r.as_deref());
+                            }
                         }
                         s = s.field(sf);
+                    }
+                    if let (true, Some(d)) = (meta.describe, &t.desc) {
+                        s = s.description(d.clone());
                     }
                     b = b.register(s);
                     continue;
@@ -216,7 +287,13 @@ pub fn build_with(ir: &Ir, enc: Encoding, cfg: impl FnOnce(SchemaBuilder) -> Sch
                     o = o.implement(i.clone());
                 }
                 for f in fields {
-                    o = o.field(make_field(irc.clone(), &f.name, &f.ty, &f.args, enc));
+                    o = o.field(make_field(irc.clone(), name, f, enc, meta));
+                }
+                if let (true, Some(d)) = (meta.describe, &t.desc) {
+                    o = o.description(d.clone());
+                }
+                for d in meta.directives(name) {
+                    o = o.directive(d);
                 }
                 b = b.register(o);
             }
@@ -227,14 +304,28 @@ pub fn build_with(ir: &Ir, enc: Encoding, cfg: impl FnOnce(SchemaBuilder) -> Sch
                 }
                 for f in fields {
                     let mut fi = InterfaceField::new(f.name.clone(), type_ref(&f.ty));
+                    let fpath = format!("{name}.{}", f.name);
                     for a in &f.args {
-                        let mut iv = InputValue::new(a.name.clone(), type_ref(&a.ty));
-                        if let Some(d) = &a.default {
-                            iv = iv.default_value(const_value(d));
+                        fi = fi.argument(make_input_value(a, &format!("{fpath}.{}", a.name), meta));
+                    }
+                    if meta.describe {
+                        if let Some(d) = &f.desc {
+                            fi = fi.description(d.clone());
                         }
-                        fi = fi.argument(iv);
+                        if let Some(r) = &f.deprecated {
+                            fi = fi.deprecation(r.as_deref());
+                        }
+                    }
+                    for d in meta.directives(&fpath) {
+                        fi = fi.directive(d);
                     }
                     i = i.field(fi);
+                }
+                if let (true, Some(d)) = (meta.describe, &t.desc) {
+                    i = i.description(d.clone());
+                }
+                for d in meta.directives(name) {
+                    i = i.directive(d);
                 }
                 b = b.register(i);
             }
@@ -243,26 +334,52 @@ pub fn build_with(ir: &Ir, enc: Encoding, cfg: impl FnOnce(SchemaBuilder) -> Sch
                 for m in members {
                     u = u.possible_type(m.clone());
                 }
+                if let (true, Some(d)) = (meta.describe, &t.desc) {
+                    u = u.description(d.clone());
+                }
+                for d in meta.directives(name) {
+                    u = u.directive(d);
+                }
                 b = b.register(u);
             }
             Kind::Enum { values } => {
                 let mut e = Enum::new(name.clone());
-                for (v, _, _) in values {
-                    e = e.item(EnumItem::new(v.clone()));
+                for (v, vdesc, vdep) in values {
+                    let mut item = EnumItem::new(v.clone());
+                    if meta.describe {
+                        if let Some(d) = vdesc {
+                            item = item.description(d.clone());
+                        }
+                        if let Some(r) = vdep {
+                            item = item.deprecation(r.as_deref());
+                        }
+                    }
+                    for d in meta.directives(&format!("{name}.{v}")) {
+                        item = item.directive(d);
+                    }
+                    e = e.item(item);
+                }
+                if let (true, Some(d)) = (meta.describe, &t.desc) {
+                    e = e.description(d.clone());
+                }
+                for d in meta.directives(name) {
+                    e = e.directive(d);
                 }
                 b = b.register(e);
             }
             Kind::Input { fields, one_of } => {
                 let mut io = InputObject::new(name.clone());
                 for a in fields {
-                    let mut iv = InputValue::new(a.name.clone(), type_ref(&a.ty));
-                    if let Some(d) = &a.default {
-                        iv = iv.default_value(const_value(d));
-                    }
-                    io = io.field(iv);
+                    io = io.field(make_input_value(a, &format!("{name}.{}", a.name), meta));
                 }
                 if *one_of {
                     io = io.oneof();
+                }
+                if let (true, Some(d)) = (meta.describe, &t.desc) {
+                    io = io.description(d.clone());
+                }
+                for d in meta.directives(name) {
+                    io = io.directive(d);
                 }
                 b = b.register(io);
             }
@@ -284,4 +401,11 @@ pub fn run_dynamic_stream(schema: &Schema, query: &str, vars: &serde_json::Map<S
     use futures_util::StreamExt;
     let req = async_graphql::Request::new(query).variables(async_graphql::Variables::from_json(serde_json::Value::Object(vars.clone()))).data(wd);
     agv_engine::sched::drive(schema.execute_stream(req).collect::<Vec<_>>()).ok_or_else(|| "dynamic execute_stream parked without a waker".to_string())
+}
+
+/// World filter for dynamic schemas: the dynamic API cannot express a null *item* of an object
+/// type (every `FieldValue`, including `FieldValue::NULL`, is accepted as an object's parent value),
+/// so such answers are not offered.
+pub fn world_filter(ir: &Ir) -> impl Fn(&[agv_refgql::exec::Seg], &Type, bool, &Ans) -> bool + Sync + '_ {
+    move |_path, ty, is_item, ans| !(is_item && *ans == Ans::Null && ir.is_object(ty.base()) && matches!(ty.nullable(), Type::Named(_)))
 }
